@@ -508,9 +508,9 @@ def get_is_power_of_two_constants(ctx, largest: float):
     fp16 = ctx.constant(1 << (11 - 1), largest)
     Q = ctx.select(largest > 1e308, fp64, ctx.select(largest > 1e38, fp32, fp16)).reference("Qispowof2", force=True)
 
-    fp64 = ctx.constant(1 << (53 - 1) + 1, largest)
-    fp32 = ctx.constant(1 << (24 - 1) + 1, largest)
-    fp16 = ctx.constant(1 << (11 - 1) + 1, largest)
+    fp64 = ctx.constant((1 << (53 - 1)) + 1, largest)
+    fp32 = ctx.constant((1 << (24 - 1)) + 1, largest)
+    fp16 = ctx.constant((1 << (11 - 1)) + 1, largest)
     P = ctx.select(largest > 1e308, fp64, ctx.select(largest > 1e38, fp32, fp16)).reference("Pispowof2", force=True)
     return Q, P
 
